@@ -95,14 +95,23 @@ fn run_fit_secs(c: &Case, y: &[f64], secs: u64) -> Outcome {
         VERIF_LASSO_RUNS.with(|r| r.borrow_mut().clear());
         let x = if c.x.is_empty() { DenseMatrix::from_2d_vec(&vec![vec![]]) } else { dense(&c.x) };
         let res: Result<FitOut, String> = if c.enet {
-            let p = ElasticNetParameters { alpha: c.alpha, l1_ratio: c.l1_ratio, normalize: c.normalize, tol: c.tol, max_iter: c.max_iter };
+            // every other case (decided by the case itself) goes through the public builder methods
+            let p = if (c.max_iter + c.x.len() + c.normalize as usize) % 2 == 0 {
+                ElasticNetParameters::default().with_alpha(c.alpha).with_l1_ratio(c.l1_ratio).with_normalize(c.normalize).with_tol(c.tol).with_max_iter(c.max_iter)
+            } else {
+                ElasticNetParameters { alpha: c.alpha, l1_ratio: c.l1_ratio, normalize: c.normalize, tol: c.tol, max_iter: c.max_iter }
+            };
             ElasticNet::fit(&x, &y, p).map_err(|e| format!("{}", e)).and_then(|m| {
                 let pred = m.predict(&x).map_err(|e| format!("{}", e))?;
                 let co = m.coefficients();
                 Ok(FitOut { coef: (0..co.shape().0).map(|i| co.get(i, 0)).collect(), intercept: m.intercept(), pred })
             })
         } else {
-            let p = LassoParameters { alpha: c.alpha, normalize: c.normalize, tol: c.tol, max_iter: c.max_iter };
+            let p = if (c.max_iter + c.x.len() + c.normalize as usize) % 2 == 0 {
+                LassoParameters::default().with_alpha(c.alpha).with_normalize(c.normalize).with_tol(c.tol).with_max_iter(c.max_iter)
+            } else {
+                LassoParameters { alpha: c.alpha, normalize: c.normalize, tol: c.tol, max_iter: c.max_iter }
+            };
             Lasso::fit(&x, &y, p).map_err(|e| format!("{}", e)).and_then(|m| {
                 let pred = m.predict(&x).map_err(|e| format!("{}", e))?;
                 let co = m.coefficients();
